@@ -164,6 +164,9 @@ class Layout2D:
         )
 
     def original_orientation_from(self, array):
+        if isinstance(array, Array2D):
+            # rotate the native values: an Array2D would keep its un-rotated mask through the flips
+            array = array.native.array
         return layout_util.rotate_array_via_roe_corner_from(
             array=array, roe_corner=self.original_roe_corner
         )
